@@ -75,6 +75,7 @@ type Contract struct {
 	Closures  map[int][]GhostUpdate // ghost updates at MakeClosure ordinal k
 	Ghosts    []GhostStmt
 	Thread    bool
+	Panics     bool // the function's job is to panic: an explicit panic statement ends the path and carries no unreachability obligation (normal returns still owe the postconditions, so `ensures false` says "never returns")
 	Terminates bool // every loop of the function needs a variant (or is a range loop); every callee terminates
 	Decreases  []*Clause // recursion measure: a lexicographic tuple of integers (booleans count as 0/1), see term.go
 	Atomic      bool       // trusted primitive that takes effect atomically (one linearization point)
@@ -528,6 +529,11 @@ func (s *Specs) loadSpecFile(w *World, path string, pkg *packages.Package, trust
 				return fail(l, "terminates outside contract")
 			}
 			cur.Terminates = true
+		case "panics":
+			if cur == nil {
+				return fail(l, "panics outside contract")
+			}
+			cur.Panics = true
 		case "decreases":
 			// decreases e1, e2, ...: the function's recursion measure (lexicographic, every component bounded below by 0)
 			if cur == nil {
